@@ -88,6 +88,11 @@ void h_expect_crash(const char *what) {
 	write_tape_file();
 	send_result();
 }
+void h_announce(void) {
+	int v = RES.verdict; RES.verdict = V_PENDING;
+	send_result();
+	RES.verdict = v;
+}
 void h_stuck(const char *clause, const char *what) {
 	char buf[380]; sim_describe_threads(buf, sizeof buf);
 	h_viol(clause, "%s; threads: %s", what, buf);
